@@ -19,7 +19,7 @@ RULE = (
     "the plug-in module namespace): EVERY vector of constraint kinds {eq, lower, upper, two-sided, unbounded, narrow two-sided} for up to N "
     "non-linear x up to N linear constraints (N=2 quick, 3 thorough) for the constraint-capable methods (slsqp, cobyla, "
     "differential_evolution); single kinds and pairs for the other seven methods; x variable mask {none, one fixed, two "
-    "fixed} x variable-bound settings {none, both, mixed, upper-only, lower-only} x options {None, {}, dict} x max_iterations. Oracle on an integer lattice of "
+    "fixed} x variable-bound settings {none, both, mixed, upper-only, lower-only, a single finite upper bound, a single finite lower bound} x options {None, {}, dict} x max_iterations. Oracle on an integer lattice of "
     "test points (affine constraints with integer coefficients, bounds at integers, so no tolerance): "
     "configured-feasible(x) => handed-feasible(x) => feasible w.r.t. bounds, non-linear constraints and every linear row that "
     "does not touch a fixed variable (plus, per constraint row and bound, points 2^-12 inside/outside/on the bound and in the "
@@ -32,7 +32,7 @@ ASSUMPTIONS = [
     "a linear row touching a fixed variable may be absent (statement: 'every retained linear constraint'), but if handed it must be the exact restriction",
 ]
 BOUNDS = {
-    "quick": "<=2 non-linear x <=2 linear kinds (6 kinds); kind vectors of total length <=2 crossed with 3 masks x 5 bound settings x 4 option variants, longer ones with 3 masks",
+    "quick": "<=2 non-linear x <=2 linear kinds (6 kinds); kind vectors of total length <=2 crossed with 3 masks x 7 bound settings x 4 option variants, longer ones with 3 masks",
     "thorough": "<=3 x <=3 kinds; longer vectors with 3 masks x 3 bound settings",
 }
 
@@ -52,7 +52,8 @@ def kind_bounds(kind: str, idx: int) -> tuple[float, float]:
         "eq": (1.0 + idx, 1.0 + idx),
         "lower": (0.0 - idx, np.inf),
         "upper": (-np.inf, 2.0 + idx),
-        "two": (-1.0, 2.0 + idx),
+        # the first two-sided band is symmetric about zero (upper == -lower is not an equality)
+        "two": (-2.0, 2.0) if idx == 0 else (-1.0, 2.0 + idx),
         "free": (-np.inf, np.inf),
         # a two-sided band that is narrow relative to its magnitude is still an inequality, not an equality
         "narrow": (1000.0 + idx, 1000.0 + idx + NARROW_WIDTH),
@@ -66,6 +67,9 @@ VBOUNDS = {
     "mixed": ([-1.0, -np.inf, -np.inf], [np.inf, 1.0, np.inf]),
     "upper-only": ([-np.inf, -np.inf, -np.inf], [2.0, 1.0, np.inf]),
     "lower-only": ([-1.0, -np.inf, 0.0], [np.inf, np.inf, np.inf]),
+    # a single finite bound among infinite ones, on one side only
+    "upper-partial": ([-np.inf, -np.inf, -np.inf], [np.inf, 1.0, np.inf]),
+    "lower-partial": ([-np.inf, -2.0, -np.inf], [np.inf, np.inf, np.inf]),
 }
 OPTIONS = {"none": None, "empty": {}, "dict": {"ftol": 1e-3}}
 
@@ -185,6 +189,12 @@ def judge(case: dict[str, Any]) -> Judgement:
         j.fail("backend-not-called")
         return j
     is_de = "de" in box
+    # ---------------------------------------------------------------- kinds the back-end cannot handle are rejected
+    # (SciPy's documentation: CG, BFGS and Newton-CG take neither bounds nor constraints; they would ignore them)
+    if method in ("cg", "bfgs", "newton-cg"):
+        finite_bound = bool(np.any(np.isfinite(np.asarray(config.variables.lower_bounds))) or np.any(np.isfinite(np.asarray(config.variables.upper_bounds))))
+        if finite_bound or case["nl"] or case["lin"]:
+            j.fail("unsupported-constraint-kind-not-rejected", method=method, vbounds=case["vbounds"], nl=case["nl"], lin=case["lin"])
     # ---------------------------------------------------------------- x0 and bounds
     x0 = np.asarray(handed["x0"])
     if x0.shape != (d,) or not np.array_equal(x0, X0[mask]):
